@@ -286,11 +286,19 @@ func didOps(w *world.World, ctx sdk.Context, tier string) []engine.Op {
 		accts = append(accts, acct{didNames[i], w.A(i).AccountId(), w.A(i)})
 	}
 	accts = append(accts, acct{"E", ethId, nil})
+	// the same eth account under its EIP-55 checksum spelling (hex addresses are case-insensitive: still one account);
+	// offered for the second DID only, which keeps the alphabet small and still lets one account meet two DIDs
+	k17, _ := ethcrypto.ToECDSA(ethPriv.Key)
+	ethChecksum := "eip155:1:" + ethcrypto.PubkeyToAddress(k17.PublicKey).Hex()
 	for _, sd := range sids {
 		_, existed := k.GetSidDocumentVersion(ctx, sd.DocId)
 		other := sidD1
 		if sd == sidD1 {
 			other = sidD2
+		}
+		accts := accts
+		if sd == sidD2 && ethChecksum != ethId {
+			accts = append(append([]acct{}, accts...), acct{"Ec", ethChecksum, nil})
 		}
 		for _, ac := range accts {
 			creators := []int{world.W}
